@@ -230,3 +230,14 @@ def r4(ctx):
     ok = len(inc) == 1 and match(core(inc[0][1]), ('bin', 'Add', V(cnt), Const(1))) and \
         all(cfg.must_pass(b, loop.header, l, via_blocks=[inc[0][0].bb], from_succ=True) for l in loop.latches)
     ctx.require(ok, b, 'count', 'num_elements counts every character', None)
+
+
+@rule('C11', 'R-C11-5', 'T11 SIBLING (one segmentation)',
+      'every CharString::new of the normal form code receives the caller\'s grapheme flag unchanged (a parameter, configuration field or '
+      'captured variable): a site that "optimises" the flag (e.g. `use_graphemes && !s.is_ascii()`) segments "\\r\\n" and friends '
+      'differently from the sites it must agree with')
+def r_segflag(ctx):
+    from rules.common import check_segmentation_flag
+    n = check_segmentation_flag(ctx, [ctx.body(n) for n in ['text::clean', 'text::word_boundaries', 'whitespace::remove', 'whitespace::full']], 'normal form')
+    if n == 0:
+        raise AnchorMissing('CharString::new sites of the normal form code')
